@@ -10,4 +10,29 @@ CHECKS = {
         "note": "Trusted: the harness value model and bridge (public constructors/fields only), chrono-tz zone data, the well-formedness bounds listed in the evidence assumptions.",
         "design_ref": "DESIGN.md §4 C01",
     },
+    "C02": {
+        "technique": "round-trip monitor over all 3x3 serde_json entry points and the typed Serialize/Deserialize impls, compared in the strict harness value model",
+        "level": ("Held on the executions observed: ~3e5 (quick) / ~5e6 (thorough) generated values, every entry-point combination, "
+                  "doubles compared by bit pattern, timestamps by instant+offset+zone. Sampling, not proof."),
+        "note": "Trusted: harness value model and bridge, serde_json itself, chrono-tz zone data, the well-formedness bounds in the evidence assumptions.",
+        "design_ref": "DESIGN.md §4 C02",
+    },
+    "C10": {
+        "technique": "panic/abort monitor: ill-formed and decoder-image values offered to every encoder under catch_unwind in isolated worker processes",
+        "level": "Held on ~3e5 (quick) / ~6e6 (thorough) constructible values incl. chains nested to 64; any panic (with location) or worker death is a violation. Sampling.",
+        "note": "Trusted: the ill-formed generator reaches the shapes that matter (every String field arbitrary, mismatched grids, extreme dates); depth bound 64 from the property.",
+        "design_ref": "DESIGN.md §4 C10",
+    },
+    "C12": {
+        "technique": "law monitor: all pairs and triples of near-collision pools checked against the Eq/Hash/Ord/PartialOrd laws, plus HashSet/BTreeSet/sort/dedup behaviour against a model",
+        "level": "Held on every pair and triple of the fixed pools (complete for those pools) and of 2e4 (quick) / 1e6 (thorough) random pools. Laws over unseen payloads are not covered.",
+        "note": "Trusted: the pools contain the relevant near-collisions; NaN excluded per the statement.",
+        "design_ref": "DESIGN.md §4 C12",
+    },
+    "C19": {
+        "technique": "kind monitor: predicate partition, exhaustive code/name bijection, typed-accessor matrix and grid-construction oracle over generated values",
+        "level": "Kind table: exhaustive (256 codes, all names, near misses). Accessors and grid construction: held on ~1e5 (quick) / ~2.5e6 (thorough) generated values and record lists.",
+        "note": "Trusted: harness value model and bridge.",
+        "design_ref": "DESIGN.md §4 C19",
+    },
 }
